@@ -223,3 +223,36 @@ Example C03_model_nonvacuous :
   api_create (B "3") (B "{}") = MErr MBadDoc /\
   api_create (B "[{},{}]") (B "[{}]") = MErr MBadDoc.
 Proof. vm_compute. repeat split; reflexivity. Qed.
+
+From JP Require StrInv.
+(* ---- the main theorems applied: every hypothesis of C03_model_correct discharged on two object texts
+   (escapes in a string, a number outside float range, a removed member, an unchanged nested object, an array
+   that grows; the target has no null member), and C03_roundtrip / C03_empty_iff_equal on the values they
+   denote.  tsb (the scanner accepts every string body) is a theorem for parsed texts (StrInv.parse_tsb). ---- *)
+Definition C03_ex_a := B "{""a"":{""x"":1.0,""y"":2,""e"":{}},""k"":""s\n<"",""n"":1e400,""arr"":[1,{""q"":null}],""same"":{""z"":[1.0]}}".
+Definition C03_ex_b := B "{""n"":1e400,""a"":{""x"":1,""w"":[12345678901234567890123],""e"":{}},""z"":""<>\/"",""arr"":[1,{""q"":3},2],""same"":{""z"":[1.0]}}".
+Definition C03_ex_ams : list (bytes * tjson) := match parse C03_ex_a with Some (TObj ms) => ms | _ => [] end.
+Definition C03_ex_bms : list (bytes * tjson) := match parse C03_ex_b with Some (TObj ms) => ms | _ => [] end.
+
+Example C03_main_theorem_applies :
+  (exists p, api_create C03_ex_a C03_ex_b = MOut (print true p) /\
+             p = encode_sorted (diff (den (TObj C03_ex_ams)) (den (TObj C03_ex_bms))) /\
+             tsb p /\ tnodup p = true /\
+             jeq (merge_patch (den (TObj C03_ex_ams)) (den p)) (den (TObj C03_ex_bms)) = true /\
+             p <> TObj []) /\
+  jeq (merge_patch (den (TObj C03_ex_ams)) (diff (den (TObj C03_ex_ams)) (den (TObj C03_ex_bms)))) (den (TObj C03_ex_bms)) = true.
+Proof.
+  assert (Pa : parse C03_ex_a = Some (TObj C03_ex_ams)) by (vm_compute; reflexivity).
+  assert (Pb : parse C03_ex_b = Some (TObj C03_ex_bms)) by (vm_compute; reflexivity).
+  assert (Na : tnodup (TObj C03_ex_ams) = true) by (vm_compute; reflexivity).
+  assert (Nb : tnodup (TObj C03_ex_bms) = true) by (vm_compute; reflexivity).
+  assert (Nn : no_null_member (den (TObj C03_ex_bms)) = true) by (vm_compute; reflexivity).
+  assert (Ne : jeq (den (TObj C03_ex_ams)) (den (TObj C03_ex_bms)) = false) by (vm_compute; reflexivity).
+  split.
+  - destruct (C03_model_correct C03_ex_a C03_ex_b C03_ex_ams C03_ex_bms Pa Pb Na Nb (StrInv.parse_tsb _ _ Pa) (StrInv.parse_tsb _ _ Pb))
+      as [p [H1 [H2 [H3 [H4 [_ [H6 H7]]]]]]].
+    exists p. split; [exact H1|]. split; [exact H2|]. split; [exact H3|]. split; [exact H4|]. split; [exact (H6 Nn)|].
+    intro E. apply H7 in E. rewrite Ne in E. discriminate E.
+  - apply C03_roundtrip; [exact Na | exact Nb | exact Nn | reflexivity | reflexivity].
+Qed.
+Print Assumptions C03_main_theorem_applies.
